@@ -100,6 +100,23 @@ package x509
 //@ ensures [same-as-direct-issuer-route] result0 == b.res0 && result1 == b.res1
 //@ at b assert [no-preissuer] b.tbsData == tbsData && b.preIssuer == nil
 
+// The SPKI entry point: a key or a fatal error, never both and never neither; complaints that the
+// certificate parser treats as non-fatal (missing NULL parameters, non-positive modulus, lax-only
+// DER) refuse the key here.
+//@ func ParsePKIXPublicKey
+//@ props C11 C12 C05 C15 C18
+//@ modifies nothing
+//@ frame-trusted decodes into local structures and builds a new key object
+//@ site asn1.Unmarshal#1 as um
+//@ site parsePublicKey#1 as pp
+//@ ensures [no-key-comes-with-a-fatal-error] err != nil ==> pub == nil && fatalErr(err)
+//@ ensures [a-key-comes-without-error-and-is-well-formed] err == nil ==> validKey(pub)
+//@ ensures [undecodable-or-trailing-data-refused] um.res1 != nil || len(um.res0) != 0 ==> err != nil && !pp.called
+//@ ensures [every-recorded-complaint-refuses-the-key] pp.called && pp.res1 == nil && after(pp, len(nfe.Errors)) > 0 ==> err != nil
+//@ ensures [otherwise-the-parsers-key] pp.called && pp.res1 == nil && after(pp, len(nfe.Errors)) == 0 ==> err == nil && pub == pp.res0
+//@ at um assert [decodes-the-given-bytes] um.b == derBytes
+//@ at pp assert [complaints-collected-in-an-empty-list] len(nfe.Errors) == 0
+
 //@ func IsFatal
 //@ props C11 C02
 //@ pure
@@ -120,6 +137,19 @@ package x509
 //@ requires e != nil
 //@ modifies e.Errors
 //@ ensures [one-more-error] len(e.Errors) == old(len(e.Errors)) + 1
+//@ ensures [the-given-error-goes-last-and-earlier-ones-stay] e.Errors[old(len(e.Errors))] == err && (forall j int :: 0 <= j && j < old(len(e.Errors)) ==> e.Errors[j] == old(e.Errors[j]))
+
+//@ func secp192r1
+//@ props C11
+//@ modifies nothing
+//@ frame-trusted initialises the package-level curve parameters once (sync.Once); no memory a contract reads
+
+//@ func namedCurveFromOID
+//@ props C11
+//@ arith int
+//@ requires nfe != nil
+//@ modifies nfe.Errors
+//@ ensures [the-collector-only-grows-by-plain-errors] len(nfe.Errors) >= old(len(nfe.Errors)) && (forall j int :: 0 <= j && j < old(len(nfe.Errors)) ==> nfe.Errors[j] == old(nfe.Errors[j])) && (forall j int :: old(len(nfe.Errors)) <= j && j < len(nfe.Errors) ==> fatalErr(nfe.Errors[j]))
 
 //@ func parseCertificate
 //@ props C11
@@ -169,13 +199,20 @@ package x509
 
 // Error class of the helper parsers: whatever they return as error is a plain (fatal) error; the
 // non-fatal findings go into the NonFatalErrors collector they are handed.
+//@ decoded pkcs1PublicKey by asn1.Unmarshal: v.N != nil
+//@ decoded pkcs1PublicKey by asn1.UnmarshalWithParams: v.N != nil
 //@ func parsePublicKey
 //@ props C11
+//@ arith int
 //@ may panic
 //@ requires nfe != nil
 //@ modifies nfe.Errors
 //@ frame-trusted appends to the collector it is given
 //@ ensures [errors-are-fatal-class] result1 != nil ==> typeof(result1) != NonFatalErrors && typeof(result1) != *Errors
+//@ ensures [an-error-comes-with-no-key] result1 != nil ==> result0 == nil
+//@ ensures [a-key-is-well-formed] result1 == nil ==> validKey(result0)
+//@ ensures [the-collector-only-grows] len(nfe.Errors) >= old(len(nfe.Errors))
+//@ ensures [recorded-complaints-are-plain-errors] forall j int :: old(len(nfe.Errors)) <= j && j < len(nfe.Errors) ==> fatalErr(nfe.Errors[j])
 
 //@ func parseSANExtension
 //@ props C11
